@@ -83,6 +83,9 @@ pub fn scenario(seed: u64, pool: &[Enr], rep: &mut Report) {
                 _ => 1 + rng.usize(16),
             };
             let cap: usize = if *d >= 8 { 16 } else { 1usize << (*d - 1) };
+            let mostly_connected = rng.chance(1, 3);
+            let mut first_in_bucket = true;
+            let mut disconnected: Vec<Id> = Vec::new();
             for _ in 0..want.min(cap) {
                 let key = kb::id_at_distance(&mut rng, &local, *d);
                 if stored.iter().any(|(k, _)| *k == key) {
@@ -93,10 +96,16 @@ pub fn scenario(seed: u64, pool: &[Enr], rep: &mut Report) {
                 }
                 let enr = pool[(pool_start + pool_i) % pool.len()].clone();
                 pool_i += 1;
-                let status = kb::status(rng.bool(), rng.bool());
+                // (in some buckets nearly everybody is connected)
+                let connected = if mostly_connected { !first_in_bucket } else { rng.bool() };
+                first_in_bucket = false;
+                let status = kb::status(connected, rng.bool());
                 let r = rig.discv5.with_kbuckets(|t| t.write().insert_or_update(&kb::key(&key), enr.clone(), status));
                 if matches!(r, discv5::kbucket::InsertResult::Inserted) {
                     stored.push((key, rlp_ref::encode_record(&enr)));
+                    if !connected {
+                        disconnected.push(key);
+                    }
                 }
             }
             // A bucket that is full may also hold a pending candidate (not a table entry: it is
@@ -119,7 +128,11 @@ pub fn scenario(seed: u64, pool: &[Enr], rep: &mut Report) {
                 if matches!(r, discv5::kbucket::InsertResult::Pending { .. }) {
                     rep.count("buckets_with_pending_candidate");
                     if due_mode || rng.bool() {
-                        let gone = in_bucket[rng.usize(in_bucket.len())];
+                        // (preferably a disconnected member: the bucket may be left without any)
+                        let gone = match in_bucket.iter().copied().find(|i| disconnected.contains(&stored[*i].0)) {
+                            Some(i) if rng.bool() => i,
+                            _ => in_bucket[rng.usize(in_bucket.len())],
+                        };
                         let k = stored[gone].0;
                         if rig.discv5.with_kbuckets(|t| t.write().remove(&kb::key(&k))) {
                             stored.remove(gone);
